@@ -62,10 +62,28 @@ def seeded_table():
     return "\n".join(rows)
 
 
+def theorems_list():
+    out = []
+    for f in sorted(glob.glob(os.path.join(ROOT, "lean/EchoVerif/Props/index/C*.json"))):
+        pid = os.path.basename(f)[:-5]
+        c = json.load(open(f))
+        out.append(f"**{pid}** — {c['manifest']['technique']}")
+        for t in c["theorems"]:
+            says = " ".join(str(t.get("says", "")).split())
+            if len(says) > 230:
+                says = says[:227] + "…"
+            out.append(f"* `{t['name']}` ({t.get('strength', 'full')}): {says}")
+        ass = c.get("assumptions", [])
+        if ass:
+            out.append("* _assumptions / not modelled:_ " + " ‖ ".join(" ".join(a.split())[:200] for a in ass))
+        out.append("")
+    return "\n".join(out)
+
+
 def main():
     p = os.path.join(ROOT, "DESIGN.md")
     s = open(p).read()
-    for name, fn in (("STATUS", status_table), ("SEEDED", seeded_table)):
+    for name, fn in (("STATUS", status_table), ("SEEDED", seeded_table), ("THEOREMS", theorems_list)):
         b, e = f"<!-- {name}:BEGIN -->", f"<!-- {name}:END -->"
         if b in s and e in s:
             s = s[:s.index(b) + len(b)] + "\n" + fn() + "\n" + s[s.index(e):]
